@@ -118,6 +118,7 @@ extern int (*rt_client_gate) (int tid);   /* may a fiber parked at a client poin
 extern int rt_sem_single_step;             /* 1: semaphore calls are single steps (L1/L2); 0: park inside (Sem) */
 extern int rt_binary_sem;                  /* 1: V saturates at 1 (binary semaphore flavour) */
 extern int rt_exit_is_step;                /* 1: the thread-exit waiter destructor is a separate step */
+extern void **rt_fiber_word;               /* address of a per-thread word of the code under test (swapped on every fiber switch), or NULL */
 void *rt_tls_waiter (int t);               /* fiber t's cached nsync waiter (or NULL) */
 int rt_in_function (int t, const char *name);   /* is fiber t inside that function (any frame)? */
 int rt_stack_owner (const void *p);        /* fiber whose stack contains p, or -1 */
